@@ -97,6 +97,29 @@ pub fn run(ctx: &Ctx) -> i32 {
             }
         }
     }
+    // the Attachments container itself: add / get / remove / clear / is_empty agree with a plain map keyed by digest
+    {
+        acc.inc("malformed_attachments");
+        let r = catch(|| {
+            let mut bad: Vec<&'static str> = vec![];
+            let mut c = Attachments::new();
+            if !c.is_empty() { bad.push("new-not-empty") }
+            for (pi, v, cf) in atts.iter().take(6) { c.add(payloads[*pi].clone(), *v, *cf) }
+            c.add(payloads[atts[0].0].clone(), atts[0].1, atts[0].2); // adding the same attachment again changes nothing
+            for i in 0..6 { match c.get(&Digest::from_data(bind::dg(&att_env[i]))) { Some(x) => if !x.is_identical_to(&att_env[i]) { bad.push("get-returns-other") }, None => bad.push("get-misses") } }
+            if c.get(&Digest::from_data([9u8; 32])).is_some() { bad.push("get-invents") }
+            let host = c.add_to_envelope(Envelope::new("host"));
+            if host.attachments().map(|v| v.len()).ok() != Some(6) { bad.push("add_to_envelope-count") }
+            let back = Attachments::try_from_envelope(&host);
+            if back.as_ref().map(|b| (0..6).all(|i| b.get(&Digest::from_data(bind::dg(&att_env[i]))).is_some())).ok() != Some(true) { bad.push("try_from_envelope-misses") }
+            if c.remove(&Digest::from_data(bind::dg(&att_env[2]))).map(|x| x.is_identical_to(&att_env[2])) != Some(true) { bad.push("remove-returns-other") }
+            if c.get(&Digest::from_data(bind::dg(&att_env[2]))).is_some() { bad.push("remove-does-not-remove") }
+            if c.remove(&Digest::from_data(bind::dg(&att_env[2]))).is_some() { bad.push("remove-twice") }
+            c.clear(); if !c.is_empty() { bad.push("clear-not-empty") }
+            bad
+        });
+        match r { Ok(b) => for x in b { acc.viol(format!("C19|Attachments-container|{x}"), "the Attachments container does not behave like a map keyed by attachment digest", format!("container/{x}"), json!({})) }, Err(p) => acc.viol(format!("C19|Attachments-container|panic|{}", p.site), p.msg.clone(), "container", json!({})) }
+    }
     // a decorated (salted) but otherwise valid attachment assertion: panics are C16's; if it answers, it must not invent attachments
     { acc.inc("malformed_attachments"); let e = Envelope::new("s").add_assertion_envelope(good.add_salt_instance(salt)).unwrap(); if let Ok(Ok(v)) = catch(|| e.attachments()) { if v.len() > 1 { acc.viol("C19|decorated|invented", "more attachments than added", "decorated", json!({})) } } }
     // types: every subset of 3 known-value types and 2 text types, every type queried
